@@ -62,6 +62,20 @@ check("C05", "exploration",
       SIM + "2-party protocol simulation with seeded peer policy, device-side reassembly oracle",
       "DESIGN.md 4/C05", "manager-world")
 
+check("C09", "fault_enumeration",
+      "One bring-up of the real manager process (ManagerRunner.run with the real load_pin over the "
+      "simulated file system, real TCPServer.run under the scheduler) per device configuration: platform "
+      "x PIN file x onboarded x reported mode x UI/signer versions x retries x echo x unlock outcome x "
+      "new-PIN outcome x mode after EXIT (incl. gone longer than the wait, virtual clock). Enumerated: "
+      "the product of the enum dimensions (thorough: complete, quick: a fixed 1-in-8 slice) at version "
+      "5.4.1; seeded: healthy-biased configurations over the version grid. Oracle: reference decision "
+      "function written from the property text (unlock at most once and only when allowed; serving "
+      "exactly when the reference says; otherwise the process ends without accepting a connection).",
+      "Device models from firmware source; an invalid PIN file with a device already in signer mode is "
+      "not judged; TCPSigner manager has no PIN.",
+      SIM + "configuration enumeration + seeded search over real bring-up code, reference decision model",
+      "DESIGN.md 4/C09", "manager-world")
+
 check("C11", "fault_enumeration",
       "Link fault {write error, read error before/after the device acted, time-out before/after} at every "
       "exchange index of every command variant (enumerated per policy seed), then 1..3 follow-ups under a "
